@@ -169,6 +169,7 @@ def check(env, rep, tier):
                 ims = [im for im in prog.impls if im.get("trait") == tr and prog.types[im["self_ty"]]["s"].startswith("block_handler::RequestCacheKey<")]
                 rep.ob("C12.2", "derived|" + tr, len(ims) == 1 and ims[0]["derived"],
                        "%s for RequestCacheKey is not the derived (all-fields) implementation" % tr)
+        check_reply_correlation(prog, rep)
         # ---- C12.3 no stale correlation
         import blockutil
         pcl = None
@@ -229,3 +230,53 @@ def check(env, rep, tier):
             rep.ob("C12.3", "header-bits", ok_bits,
                    "copying the cached reply does not leave the live reply's token-length bits alone while taking exactly the version/type bits from the cache", site)
             rep.ob("C12.3", "read-set", ok_read, "the cached reply's message id / token / payload are read while serving a block (stale correlation can leak)", site)
+
+
+def check_reply_correlation(prog, rep):
+    """C12.4: neither handler entry point touches the prepared reply's correlation fields - message id, token, token
+    length nibble - on any path (they were set from the request being answered, C07); only the version / type bits
+    may be rewritten, by the copy function C12.3 constrains"""
+    import blockutil
+    import bitprov
+    from blockutil import Trace
+    P = {f["name"]: i for i, f in enumerate(prog.adts["packet::Packet"]["variants"][0]["fields"])}
+    H = {f["name"]: i for i, f in enumerate(prog.adts["header::Header"]["variants"][0]["fields"])}
+    for entry in ("intercept_response", "intercept_request"):
+        init = {}
+
+        def setup(tr, I, st, init=init):
+            m = tr.resp_msg
+            init["mid"] = I.ensure(st, m.extend(("f", P["header"]), ("f", H["message_id"])), ("int", 16, False), "reply.mid")
+            init["b0"] = I.ensure(st, m.extend(("f", P["header"]), ("f", H["ver_type_tkl"])), ("int", 8, False), "reply.b0")
+            n = I.fresh(st, "len(reply.token)", 0, 8, ("len", "reply.token"))
+            tok = VecV(Aff.sym(n), None, ("reply-token",), I.newgen())
+            I.write(st, m.extend(("f", P["token"])), tok)
+            init["tok"] = tok
+        tr = Trace(prog, entry, setup=setup)
+        if not tr.ok or "mid" not in init:
+            rep.missing("C12.4", "BlockHandler::" + entry)
+            continue
+        I = tr.I
+        site = {"file": tr.body["span"]["f"], "line": tr.body["span"]["l"], "fn": tr.body["path"]}
+        n, bad = 0, []
+        b0sym = bitprov.sym_of(init["b0"]) if isinstance(init["b0"], IntV) else None
+        for s, rv in tr.res:
+            n += 1
+            resp = I.read(s, tr.resp_msg)
+            if not isinstance(resp, StructV):
+                bad.append("the reply is replaced by an untracked value")
+                continue
+            h = resp.fields[P["header"]]
+            mid = h.fields[H["message_id"]] if isinstance(h, StructV) else None
+            if not (isinstance(mid, IntV) and isinstance(init["mid"], IntV) and mid.aff == init["mid"].aff):
+                bad.append("the message id of the reply is changed")
+            tok = resp.fields[P["token"]]
+            if not (isinstance(tok, VecV) and tok.gen == init["tok"].gen and tok.len == init["tok"].len):
+                bad.append("the token of the reply is replaced (a default / emptied packet loses it)")
+            b0 = h.fields[H["ver_type_tkl"]] if isinstance(h, StructV) else None
+            bits = bitprov.resolve_bits(I, s, b0, 8) if isinstance(b0, IntV) else None
+            if not (bits and b0sym and all(bits[i] == ("b", b0sym, i) for i in range(4))):
+                bad.append("the token length field of the reply header is changed")
+        rep.ob("C12.4", "reply-correlation|" + entry, not bad and n >= 2,
+               "%s: %s (paths: %d)" % (entry, "; ".join(sorted(set(bad))[:2]) or "too few paths", n), site,
+               sample={"rule": "C12.4", "entry": entry, "paths": n})
